@@ -835,10 +835,15 @@ func packageClause(src string) string {
 
 // rewriteTimeNow replaces time.Now() by verif.Now() and adds the import.
 func rewriteTimeNow(src string) (string, error) {
-	if !strings.Contains(src, "time.Now()") {
+	if !strings.Contains(src, "time.Now()") && !strings.Contains(src, "sha256.New()") {
 		return src, nil
 	}
 	out := strings.ReplaceAll(src, "time.Now()", "verif.Now()")
+	// idealised SHA-256 (the engine models crypto/sha256.New as verif.NewSHA256, see natives_paths.go)
+	out = strings.ReplaceAll(out, "sha256.New()", "verif.NewSHA256()")
+	if !strings.Contains(out, "sha256.") {
+		out = strings.Replace(out, "\t\"crypto/sha256\"\n", "", 1)
+	}
 	i := strings.Index(out, "import (")
 	if i < 0 {
 		return "", fmt.Errorf("no import block")
